@@ -578,4 +578,469 @@ theorem unproductive_step (g : Graph) (s : State) (w : Nat) (out : Outcome) (fue
     refine ⟨Or.inr rfl, ?_⟩
     cases hpc' : ((resume g s w out fuel).1.wd w).pc <;> rw [hpc'] at h <;> first | rfl | cases h
 
+/-! ## a back-off sleep needs a runner: the walk -/
+
+/-- every worker but `w` is neither inside a test nor dead -/
+def Quiet (w : Nat) (s : State) : Prop := ∀ v, v ≠ w → (s.wd v).pc.node? = none ∧ (s.wd v).pc ≠ .failed
+
+theorem Quiet.of_eq {w : Nat} {s s' : State} (h : Quiet w s) (e : ∀ v, v ≠ w → (s'.wd v).pc = (s.wd v).pc) : Quiet w s' :=
+  fun v hv => by rw [e v hv]; exact h v hv
+
+/-- when the others are quiet, nobody holds a mark while `w` is in its loop -/
+theorem noMarks_of_quiet {g : Graph} {s : State} {w : Nat} (ho : PInvO g s w) (hq : Quiet w s) :
+    ∀ i, (s.nd i).started = none := by
+  intro i
+  cases h : (s.nd i).started with
+  | none => rfl
+  | some v =>
+    exfalso
+    obtain ⟨hv, hpc⟩ := ho.markPc i v h
+    obtain ⟨h1, h2⟩ := hq v hv
+    rcases hpc with h' | h'
+    · rw [h1] at h'; cases h'
+    · exact h2 h'
+
+/-- an iteration that neither suspends nor leaves the loop nor raises keeps the program counter -/
+theorem traverseNode_contPc (gv : Graph) (hsym : EdgeSym gv) (s : State) (w next prev : Nat) (dir : Dir)
+    (hw : w < s.workers.length) (hlast : (s.wd w).path.getLast? = some next) (hlen : 2 ≤ (s.wd w).path.length)
+    (hc : (traverseNode gv s w next prev dir).2.2 = .cont) :
+    ((traverseNode gv s w next prev dir).1.wd w).pc = (s.wd w).pc := by
+  unfold traverseNode at hc ⊢
+  by_cases hocc : isOccupied gv s next w = true
+  · simp only [hocc, if_true]
+    exact (afterTraverse_ok gv hsym s w next prev dir hw hlast hlen).2.1
+  · simp only [hocc, Bool.false_eq_true, if_false] at hc ⊢
+    have qE : Qt w (some next) s (s.setNd next (fun d => { d with started := some w })) := qt_enter w s next
+    have qP0 : Qt w none (s.setNd next (fun d => { d with started := some w }))
+        (pullLocations gv (s.setNd next (fun d => { d with started := some w })) next) := qt_pullLocations w none gv _ next
+    cases hd : runDecision gv (pullLocations gv (s.setNd next (fun d => { d with started := some w })) next) next w with
+    | error e => rw [hd] at hc; cases hc
+    | ok r =>
+      obtain ⟨run, s1, evs⟩ := r
+      have q10 : Qt w none (s.setNd next (fun d => { d with started := some w })) s1 :=
+        qP0.trans (qt_runDecision w none gv _ next w run s1 evs hd)
+      rw [hd] at hc
+      dsimp only at hc ⊢
+      by_cases hrun : run = true
+      · subst hrun
+        exfalso
+        simp only [if_true] at hc
+        by_cases hroot : (gv.node next).objectRoot = true
+        · simp only [hroot, if_true, startTest_flow] at hc; cases hc
+        · simp only [hroot, Bool.false_eq_true, if_false, startTest_flow] at hc; cases hc
+      · simp only [hrun, Bool.false_eq_true, if_false] at hc ⊢
+        have qF : Qt w none s (finishTraverse s1 next w) := enter_finish_qt w s s1 next q10
+        have hwF : w < (finishTraverse s1 next w).workers.length := by rw [qF.workers]; exact hw
+        have b := (afterTraverse_ok gv hsym (finishTraverse s1 next w) w next prev dir hwF
+          (by rw [qF.wd w]; exact hlast) (by rw [qF.wd w]; exact hlen)).2.1
+        rw [qF.wd w] at b
+        exact b
+
+theorem iter_contPc (gv : Graph) (hsym : EdgeSym gv) (s : State) (w : Nat) (hc : (iter gv s w).2.2 = .cont) :
+    ((iter gv s w).1.wd w).pc = (s.wd w).pc := by
+  unfold iter at hc ⊢
+  dsimp only at hc ⊢
+  split at hc
+  · split at hc <;> cases hc
+  · rename_i hroot
+    simp only [hroot]
+    cases hl : (s.wd w).path.getLast? with
+    | none => rw [hl] at hc; cases hc
+    | some next =>
+      have hne : (s.wd w).path ≠ [] := by intro h; rw [h] at hl; simp at hl
+      have hw : w < s.workers.length := lt_of_path_ne_nil s w hne
+      rw [hl] at hc
+      dsimp only at hc ⊢
+      have push : ∀ (s1 : State) (c : Nat), Qt w none s s1 → ((pushPath s1 w c).wd w).pc = (s.wd w).pc := by
+        intro s1 c q1
+        unfold pushPath
+        rw [q1.eff.wd_setWd hw, q1.wd w]
+      split at hc
+      · rename_i h1
+        simp only [h1, if_true]
+        cases hp : pickChild gv s next w with
+        | none => rw [hp] at hc; cases hc
+        | some r =>
+          obtain ⟨c, s1⟩ := r
+          exact push s1 c (pickChild_qt w none gv s next w c s1 hp)
+      · rename_i hlen1
+        simp only [hlen1]
+        have hlen : 2 ≤ (s.wd w).path.length := by
+          have h0 : 0 < (s.wd w).path.length := List.length_pos_iff.mpr hne
+          have h1 : (s.wd w).path.length ≠ 1 := by simpa using hlen1
+          omega
+        split at hc
+        · cases hc
+        · rename_i hocc
+          simp only [hocc]
+          split at hc
+          · rename_i hcl
+            simp only [hcl, if_true]
+            split at hc
+            · rename_i hsr
+              simp only [hsr, if_true]
+              exact traverseNode_contPc gv hsym s w next _ .up hw hl hlen hc
+            · rename_i hsr
+              simp only [hsr]
+              cases hp : pickParent gv s next w with
+              | none => rw [hp] at hc; cases hc
+              | some r =>
+                obtain ⟨c, s1⟩ := r
+                exact push s1 c (pickParent_qt w none gv s next w c s1 hp)
+          · rename_i hcl
+            simp only [hcl]
+            split at hc
+            · rename_i hsu
+              simp only [hsu, if_true]
+              split at hc
+              · rename_i hsr
+                simp only [hsr, if_true]
+                cases hp : pickParent gv s next w with
+                | none => rw [hp] at hc; cases hc
+                | some r =>
+                  obtain ⟨c, s1⟩ := r
+                  exact push s1 c (pickParent_qt w none gv s next w c s1 hp)
+              · rename_i hsr
+                simp only [hsr]
+                exact traverseNode_contPc gv hsym s w next _ .down hw hl hlen hc
+            · cases hc
+
+theorem iterL_contPc (g : Graph) (hsym : EdgeSym g) (s : State) (w : Nat) (hc : (iterL g s w).2.2 = .cont) :
+    ((iterL g s w).1.wd w).pc = (s.wd w).pc := by
+  unfold iterL at hc ⊢
+  split at hc
+  · rename_i h1
+    simp only [h1, if_true]
+    exact iter_contPc (vis g s) (edgeSym_vis g s hsym) s w hc
+  · rename_i h1
+    simp only [h1, Bool.false_eq_true, if_false]
+    dsimp only at hc ⊢
+    rw [iter_contPc (vis g (prepare g s w)) (edgeSym_vis g _ hsym) (prepare g s w) w hc]
+    exact ((prepare_frame g s w).2.2.1 w).2
+
+/-- an iteration of `w` leaves the program counters of the others alone -/
+theorem iterL_others_pc (g : Graph) (hsym : EdgeSym g) (s : State) (w v : Nat) (hv : v ≠ w) :
+    ((iterL g s w).1.wd v).pc = (s.wd v).pc := by
+  obtain ⟨s1, hs1, _, hok⟩ := iterL_ok g hsym s w
+  have h1 : (s1.wd v).pc = (s.wd v).pc := by
+    rcases hs1 with h | h
+    · rw [h]
+    · rw [h]; exact ((prepare_frame g s w).2.2.1 v).2
+  rcases hok with ⟨he, _⟩ | ⟨_, _, _, he, _⟩
+  · rw [he.others v hv, h1]
+  · rw [he.others v hv, h1]
+
+/-- the loop of `w` while the others are quiet: it never ends in the back-off sleep, bumps nothing and leaves the back-off
+record alone -/
+theorem runLoop_quiet (g : Graph) (hsym : EdgeSym g) (w fuel : Nat) (s : State) (evs : List Event) (ho : PInvO g s w)
+    (hp : PathOK (Adj (vis g s)) (fun x => relevant g w x = true) g.root (s.wd w).path)
+    (hw : w < s.workers.length) (hq : Quiet w s) (hpc : fuel = 0 → (s.wd w).pc ≠ .bounce) :
+    ((runLoop g w fuel s evs).1.wd w).pc ≠ .bounce ∧ Calm w s (runLoop g w fuel s evs).1 := by
+  induction fuel generalizing s evs with
+  | zero => exact ⟨hpc rfl, Calm.refl w s⟩
+  | succ fuel ih =>
+    unfold runLoop
+    dsimp only
+    have e0 : Eff w none s (s.setWd w (fun d => { d with pc := .loop })) := eff_setWd w none s _
+    have c0 : Calm w s (s.setWd w (fun d => { d with pc := .loop })) := calm_setWd w s w _ (fun _ => rfl) (fun _ => rfl)
+    have hwd := wd_setWd_eq s w (fun d => { d with pc := .loop }) hw
+    have ho0 : PInvO g (s.setWd w (fun d => { d with pc := .loop })) w :=
+      ho.transfer e0.workersLen (fun x hx => by rw [← e0.hidden]; exact hx)
+        (fun v hv => by rw [e0.others v hv]; exact ⟨rfl, rfl⟩) (fun i => Or.inl rfl)
+    have hp0 : PathOK (Adj (vis g (s.setWd w (fun d => { d with pc := .loop })))) (fun x => relevant g w x = true) g.root
+        ((s.setWd w (fun d => { d with pc := .loop })).wd w).path := by
+      rw [hwd]
+      exact hp.mono (fun a b => adj_vis_mono g s _ (fun x hx => by rw [← e0.hidden]; exact hx) a b)
+    have hw0 : w < (s.setWd w (fun d => { d with pc := .loop })).workers.length := by rw [e0.workersLen]; exact hw
+    have hq0 : Quiet w (s.setWd w (fun d => { d with pc := .loop })) := hq.of_eq (fun v hv => by rw [e0.others v hv])
+    obtain ⟨hl, hcont, _, _⟩ := iterL_inv g hsym _ w ho0 hp0 (by rw [hwd]; rfl)
+    have hit := iterL_noMarks g _ w hw0 (noMarks_of_quiet ho0 hq0)
+    have hoth := iterL_others_pc g hsym (s.setWd w (fun d => { d with pc := .loop })) w
+    have hcp := iterL_contPc g hsym (s.setWd w (fun d => { d with pc := .loop })) w
+    split
+    · next s1 e heq =>
+      rw [heq] at hcont hl hit hoth hcp
+      obtain ⟨a, b, _⟩ := hcont rfl
+      have hpc1 : (s1.wd w).pc ≠ .bounce := by
+        have := hcp rfl
+        dsimp only at this
+        rw [this, hwd]; simp
+      obtain ⟨q1, q2⟩ := ih s1 _ a b (by rw [hl]; exact hw0) (hq0.of_eq (fun v hv => hoth v hv)) (fun _ => hpc1)
+      exact ⟨q1, (c0.trans hit.calm).trans q2⟩
+    · next s1 e heq =>
+      rw [heq] at hit
+      refine ⟨?_, c0.trans hit.calm⟩
+      have := hit.susp rfl
+      dsimp only at this ⊢
+      intro hb; rw [hb] at this; cases this
+    · next s1 e heq =>
+      rw [heq] at hit
+      refine ⟨?_, c0.trans hit.calm⟩
+      have := hit.exit rfl
+      dsimp only at this ⊢
+      rw [this]; simp
+    · next s1 e what heq =>
+      rw [heq] at hit hl
+      refine ⟨?_, (c0.trans hit.calm).trans (calm_setWd w s1 w _ (fun _ => rfl) (fun _ => rfl))⟩
+      show ((s1.setWd w _).wd w).pc ≠ .bounce
+      rw [wd_setWd_eq s1 w _ (by rw [hl]; exact hw0)]; simp
+
+theorem continueAfter_quiet (g : Graph) (hsym : EdgeSym g) (w n : Nat) (phase : Phase) (dir : Dir) (fuel : Nat)
+    (hf : 0 < fuel) (s : State) (ok : Bool) (evs : List Event) (h : PInv g s) (hpcw : (s.wd w).pc.node? = some n)
+    (hq : Quiet w s) :
+    ((resumeTest.continueAfter g w n phase dir fuel s ok evs).1.wd w).pc ≠ .bounce ∧
+      Calm w s (resumeTest.continueAfter g w n phase dir fuel s ok evs).1 := by
+  obtain ⟨hid, hlast, hlen⟩ := h.testOwn w n hpcw
+  have hw : w < s.workers.length := lt_of_path_ne_nil s w (by intro h0; rw [h0] at hlen; simp at hlen)
+  unfold resumeTest.continueAfter
+  dsimp only
+  split
+  · refine ⟨?_, calm_startTest w g s n w .main dir⟩
+    show ((startTest g s n w .main dir).1.wd w).pc ≠ .bounce
+    rw [startTest_pc g s n w .main dir hw]; simp
+  · have q2 : Qt w none s (if (phase == Phase.pre) = true then
+          s.setNd n (fun d => { d with results := d.results ++ (s.wd w).preResults.drop d.results.length })
+        else s) := by
+      split
+      · refine qt_setNd w none s n _ ?_
+        intro d; exact Or.inl rfl
+      · exact Qt.refl _ _ _
+    have c2 : Calm w s (if (phase == Phase.pre) = true then
+          s.setNd n (fun d => { d with results := d.results ++ (s.wd w).preResults.drop d.results.length })
+        else s) := by
+      split
+      · exact calm_setNd w s n _ (fun _ => rfl)
+      · exact Calm.refl w s
+    obtain ⟨hoF, hpF, hlF, hnF, hwF, _⟩ := h.finish hpcw q2
+    have qF := q2.trans (qt_finishTraverse w none _ n w)
+    have cF := c2.trans (calm_finishTraverse w _ n w)
+    generalize hsF : finishTraverse (if (phase == Phase.pre) = true then
+          s.setNd n (fun d => { d with results := d.results ++ (s.wd w).preResults.drop d.results.length })
+        else s) n w = sF at hoF hpF hlF hnF hwF qF cF
+    have hqF : Quiet w sF := hq.of_eq (fun v _ => by rw [qF.wd v])
+    obtain ⟨a, b, c, _⟩ := afterTraverse_ok (vis g sF) (edgeSym_vis g sF hsym) sF w n
+      ((s.wd w).path.getD ((s.wd w).path.length - 2) 0) dir hwF hlF hnF
+    have cA := cF.trans (calm_afterTraverse w (vis g sF) sF w n ((s.wd w).path.getD ((s.wd w).path.length - 2) 0) dir)
+    generalize afterTraverse (vis g sF) sF w n ((s.wd w).path.getD ((s.wd w).path.length - 2) 0) dir = r at a b c cA
+    have hhid : ∀ x, x ∈ r.1.hidden → x ∈ sF.hidden := by intro x hx; rw [← a.hidden]; exact hx
+    have ho' : PInvO g r.1 w := hoF.transfer a.workersLen hhid (fun v hv => by rw [a.others v hv]; exact ⟨rfl, rfl⟩)
+      (fun i => by
+        rcases a.marks i with h' | h' | h'
+        · exact Or.inl h'
+        · exact Or.inr h'
+        · exact absurd h'.1 (by simp))
+    have hp' := pathOK_eff g sF r.1 w _ _ hhid hpF c
+    have hw' : w < r.1.workers.length := by rw [a.workersLen]; exact hwF
+    have hq' : Quiet w r.1 := hqF.of_eq (fun v hv => by rw [a.others v hv])
+    obtain ⟨s1, e2, fl⟩ := r
+    have loopCase : ∀ evs', ((runLoop g w fuel s1 evs').1.wd w).pc ≠ .bounce ∧ Calm w s (runLoop g w fuel s1 evs').1 := by
+      intro evs'
+      obtain ⟨x1, x2⟩ := runLoop_quiet g hsym w fuel s1 evs' ho' hp' hw' hq' (fun h0 => by omega)
+      exact ⟨x1, cA.trans x2⟩
+    cases fl with
+    | raise what =>
+      dsimp only
+      refine ⟨?_, cA.trans (calm_setWd w s1 w _ (fun _ => rfl) (fun _ => rfl))⟩
+      rw [wd_setWd_eq s1 w _ hw']; simp
+    | cont => exact loopCase _
+    | suspend => exact loopCase _
+    | exit => exact loopCase _
+
+theorem resumeTest_quiet (g : Graph) (hsym : EdgeSym g) (s : State) (w n : Nat) (phase : Phase) (dir : Dir) (uid : String)
+    (tag wait : Nat) (out : Outcome) (fuel : Nat) (hf : 0 < fuel) (h : PInv g s) (hpcw : (s.wd w).pc.node? = some n)
+    (hq : Quiet w s) :
+    ((resumeTest g s w n phase dir uid tag wait out fuel).1.wd w).pc ≠ .bounce ∧
+      Calm w s (resumeTest g s w n phase dir uid tag wait out fuel).1 := by
+  rw [resumeTest_eq]
+  obtain ⟨r1, r2, r3⟩ := reportOutcome_frame g s w n phase uid wait out
+  have bA : BookOnly s (reportOutcome g s w n phase uid wait out).1 :=
+    ⟨by rw [r2], r3, fun v => by unfold State.wd; rw [r2]; exact ⟨rfl, rfl⟩, fun i => by unfold State.nd; rw [r1]⟩
+  have hA := h.bookOnly bA
+  have cA : Calm w s (reportOutcome g s w n phase uid wait out).1 := Calm.quiet r1 r2
+  have hpcA : ((reportOutcome g s w n phase uid wait out).1.wd w).pc.node? = some n := by rw [(bA.wd w).2]; exact hpcw
+  have hqA : Quiet w (reportOutcome g s w n phase uid wait out).1 := hq.of_eq (fun v _ => (bA.wd v).2)
+  generalize (reportOutcome g s w n phase uid wait out).1 = sa at hA hpcA bA cA hqA
+  have hwA : w < sa.workers.length := by
+    obtain ⟨_, _, hlen⟩ := hA.testOwn w n hpcA
+    exact lt_of_path_ne_nil sa w (by intro h0; rw [h0] at hlen; simp at hlen)
+  have waitCase : ∀ k, ((sa.setWd w (fun d => { d with pc := .test n phase dir uid tag k })).wd w).pc ≠ .bounce ∧
+      Calm w s (sa.setWd w (fun d => { d with pc := .test n phase dir uid tag k })) := by
+    intro k
+    refine ⟨?_, cA.trans (calm_setWd w sa w _ (fun _ => rfl) (fun _ => rfl))⟩
+    rw [wd_setWd_eq sa w _ hwA]; simp
+  split
+  · next st0 dur _ =>
+    have bB := recordResult_frame sa w n phase (if (phase == Phase.pre) = true then (s.wd w).preName else (g.node n).name) uid tag st0 dur
+    have cB := calm_recordResult w sa w n phase (if (phase == Phase.pre) = true then (s.wd w).preName else (g.node n).name) uid tag st0 dur
+    obtain ⟨x1, x2⟩ := continueAfter_quiet g hsym w n phase dir fuel hf _
+      (recordResult sa w n phase (if (phase == Phase.pre) = true then (s.wd w).preName else (g.node n).name) uid tag st0 dur).2
+      (reportOutcome g s w n phase uid wait out).2
+      (hA.bookOnly bB) (by rw [(bB.wd w).2]; exact hpcA) (hqA.of_eq (fun v _ => (bB.wd v).2))
+    exact ⟨x1, (cA.trans cB).trans x2⟩
+  · split
+    · exact waitCase _
+    · split
+      · exact waitCase _
+      · obtain ⟨x1, x2⟩ := continueAfter_quiet g hsym w n phase dir fuel hf sa false
+          (reportOutcome g s w n phase uid wait out).2 hA hpcA hqA
+        exact ⟨x1, cA.trans x2⟩
+
+/-- **A step that ends in the back-off sleep needs a runner** (contrapositive form): in a state satisfying the progress
+invariant `PInv`, if every worker but `w` is neither inside a test nor dead, a step of `w` with positive fuel does not end
+in the back-off sleep; it bumps nothing and leaves `w`'s back-off record as it is. -/
+theorem resume_quiet (g : Graph) (hsym : EdgeSym g) (s : State) (w : Nat) (out : Outcome) (fuel : Nat) (hf : 0 < fuel)
+    (hw : w < g.workers.length) (h : PInv g s) (hq : Quiet w s) :
+    ((resume g s w out fuel).1.wd w).pc ≠ .bounce ∧ Calm w s (resume g s w out fuel).1 := by
+  have hws : w < s.workers.length := by rw [h.wlen]; exact hw
+  have loopCase : (s.wd w).pc.node? = none → (s.wd w).pc ≠ .failed → (s.wd w).pc ≠ .done →
+      ((runLoop g w fuel s []).1.wd w).pc ≠ .bounce ∧ Calm w s (runLoop g w fuel s []).1 := by
+    intro h2 h3 h4
+    refine runLoop_quiet g hsym w fuel s [] (h.toO h2 h3) ?_ hws hq (fun h0 => by omega)
+    rcases h.path w hws with h' | h'
+    · exact absurd h'.2 h4
+    · exact h'
+  unfold resume
+  split
+  · next heq => exact loopCase (by rw [heq]; rfl) (by rw [heq]; simp) (by rw [heq]; simp)
+  · next heq => exact loopCase (by rw [heq]; rfl) (by rw [heq]; simp) (by rw [heq]; simp)
+  · next n phase dir uid tag wait heq =>
+    exact resumeTest_quiet g hsym s w n phase dir uid tag wait out fuel hf h (by rw [heq]; rfl) hq
+  · next heq => exact ⟨by rw [heq]; simp, Calm.refl w s⟩
+  · next heq => exact ⟨by rw [heq]; simp, Calm.refl w s⟩
+
+/-- a worker that is inside a test or dead is a real worker -/
+theorem real_of_runner {s : State} {v : Nat} (h : (s.wd v).pc.node? ≠ none ∨ (s.wd v).pc = .failed) :
+    v < s.workers.length := by
+  by_cases hl : v < s.workers.length
+  · exact hl
+  · exfalso
+    rw [wd_default_of_ge s v hl] at h
+    rcases h with h | h
+    · exact h rfl
+    · cases h
+
+/-- **a step that ends in the back-off sleep needs a runner**: some OTHER real worker is inside a test or dead -/
+theorem bounce_has_runner (g : Graph) (hsym : EdgeSym g) (s : State) (w : Nat) (out : Outcome) (fuel : Nat) (hf : 0 < fuel)
+    (hw : w < g.workers.length) (h : PInv g s) (hb : ((resume g s w out fuel).1.wd w).pc = .bounce) :
+    ∃ v, v ≠ w ∧ v < g.workers.length ∧ ((∃ m, (s.wd v).pc.node? = some m) ∨ (s.wd v).pc = .failed) := by
+  by_cases hq : Quiet w s
+  · exact absurd hb (resume_quiet g hsym s w out fuel hf hw h hq).1
+  · unfold Quiet at hq
+    obtain ⟨v, hx0⟩ := Classical.not_forall.mp hq
+    have hv : v ≠ w := fun e => hx0 (fun h => absurd e h)
+    have hx : ¬ ((s.wd v).pc.node? = none ∧ (s.wd v).pc ≠ .failed) := fun hh => hx0 (fun _ => hh)
+    have hr : (s.wd v).pc.node? ≠ none ∨ (s.wd v).pc = .failed := by
+      by_cases h1 : (s.wd v).pc.node? = none
+      · right
+        by_cases h2 : (s.wd v).pc = .failed
+        · exact h2
+        · exact absurd ⟨h1, h2⟩ hx
+      · exact Or.inl h1
+    refine ⟨v, hv, by rw [← h.wlen]; exact real_of_runner hr, ?_⟩
+    rcases hr with h1 | h1
+    · left
+      cases hn : (s.wd v).pc.node? with
+      | none => exact absurd hn h1
+      | some m => exact ⟨m, rfl⟩
+    · exact Or.inr h1
+
+/-! ## the last worker -/
+
+/-- every real worker but `w` has left the loop through the shared root -/
+def OthersDone (g : Graph) (w : Nat) (s : State) : Prop := ∀ v, v ≠ w → v < g.workers.length → (s.wd v).pc = .done
+
+theorem quiet_of_othersDone {g : Graph} {w : Nat} {s : State} (hlen : s.workers.length = g.workers.length)
+    (h : OthersDone g w s) : Quiet w s := by
+  intro v hv
+  by_cases hl : v < g.workers.length
+  · rw [h v hv hl]; exact ⟨rfl, by simp⟩
+  · rw [wd_default_of_ge s v (by rw [hlen]; exact hl)]; exact ⟨rfl, by simp⟩
+
+/-- the steps of one worker `w`: (outcome, fuel) per step -/
+def runW (g : Graph) (w : Nat) (s : State) (steps : List (Outcome × Nat)) : State :=
+  steps.foldl (fun s st => (resume g s w st.1 st.2).1) s
+
+theorem productive_of_not_bounce {pc pc' : Pc} (h1 : isOver pc = false) (h2 : pc' ≠ .bounce) : productive pc pc' = true := by
+  cases pc with
+  | test n ph dir uid tag wait => rfl
+  | done => cases h1
+  | failed => cases h1
+  | loop => cases pc' <;> first | rfl | exact absurd rfl h2
+  | bounce => cases pc' <;> first | rfl | exact absurd rfl h2
+
+/-- a step of the last worker: the invariant is kept (nothing is bumped although the worker may have over-waited before),
+the others stay done, the step does not end in the back-off sleep, and the counter grows unless the worker was over -/
+theorem lastWorker_step {g : Graph} {ncls : Nat} (st : StaticN g ncls) (hnr : noRootsB g = true)
+    {store : List (String × List (String × String))} {s : State} (h : GInvN g ncls store s) (w : Nat)
+    (hw : w < g.workers.length) (hd : OthersDone g w s) (out : Outcome) (fuel : Nat) (hf : Term.bound g ≤ fuel) :
+    GInvN g ncls store (resume g s w out fuel).1 ∧ OthersDone g w (resume g s w out fuel).1 ∧
+      ((resume g s w out fuel).1.wd w).pc ≠ .bounce ∧
+      (isOver (s.wd w).pc = false → cntN g s + 1 ≤ cntN g (resume g s w out fuel).1) := by
+  have hf0 : 0 < fuel := Nat.lt_of_lt_of_le (bound_pos g) hf
+  have hsym := edgeSymB_sound st.sym
+  have hp := h.reachF.pinv hsym
+  obtain ⟨x1, x2⟩ := resume_quiet g hsym s w out fuel hf0 hw hp (quiet_of_othersDone hp.wlen hd)
+  refine ⟨ginvN_step st h w hw out fuel hf0 x2.bump, ?_, x1, fun hov => ?_⟩
+  · intro v hv hvl
+    rw [resume_others st h.reachF w hw out fuel hf0 v hv]
+    exact hd v hv hvl
+  · have c := step_cntN st hnr h w hw out fuel hf
+    rw [productive_of_not_bounce hov x1] at c
+    simpa using c
+
+theorem runW_cons (g : Graph) (w : Nat) (s : State) (a : Outcome × Nat) (r : List (Outcome × Nat)) :
+    runW g w s (a :: r) = runW g w (resume g s w a.1 a.2).1 r := rfl
+
+theorem runW_over (g : Graph) (w : Nat) (steps : List (Outcome × Nat)) (s : State) (h : isOver (s.wd w).pc = true) :
+    runW g w s steps = s := by
+  induction steps with
+  | nil => rfl
+  | cons a r ih => rw [runW_cons, resume_overN g s w a.1 a.2 h]; exact ih
+
+/-- along the steps of the last worker: invariant, the others stay done, never asleep after a step, and while it is not
+over the counter has grown by the number of steps -/
+theorem lastWorker_run {g : Graph} {ncls : Nat} (st : StaticN g ncls) (hnr : noRootsB g = true)
+    {store : List (String × List (String × String))} (w : Nat) (hw : w < g.workers.length)
+    (steps : List (Outcome × Nat)) (s : State) (h : GInvN g ncls store s) (hd : OthersDone g w s)
+    (hfuel : ∀ x ∈ steps, Term.bound g ≤ x.2) :
+    GInvN g ncls store (runW g w s steps) ∧ OthersDone g w (runW g w s steps) ∧
+      (steps ≠ [] → ((runW g w s steps).wd w).pc ≠ .bounce) ∧
+      (isOver ((runW g w s steps).wd w).pc = false → cntN g s + steps.length ≤ cntN g (runW g w s steps)) := by
+  induction steps generalizing s with
+  | nil => exact ⟨h, hd, fun h0 => absurd rfl h0, fun _ => Nat.le_refl _⟩
+  | cons a r ih =>
+    obtain ⟨x1, x2, x3, x4⟩ := lastWorker_step st hnr h w hw hd a.1 a.2 (hfuel a List.mem_cons_self)
+    obtain ⟨y1, y2, y3, y4⟩ := ih _ x1 x2 (fun x hx => hfuel x (List.mem_cons_of_mem _ hx))
+    rw [runW_cons]
+    refine ⟨y1, y2, fun _ => ?_, fun hno => ?_⟩
+    · cases r with
+      | nil => exact x3
+      | cons b r' => exact y3 (by simp)
+    · by_cases hov : isOver (s.wd w).pc = true
+      · exfalso
+        rw [resume_overN g s w a.1 a.2 hov, runW_over g w r s hov, hov] at hno
+        cases hno
+      · have c1 := x4 (by simpa using hov)
+        have c2 := y4 hno
+        simp only [List.length_cons]
+        omega
+
+/-- **the last worker terminates**: once all the other workers are done, the remaining worker never sleeps at an occupied
+node again and is done or dead after any `24·resultBound g + 13·|workers| + 1` of its steps -/
+theorem lastWorker_over {g : Graph} {ncls : Nat} (st : StaticN g ncls) (hnr : noRootsB g = true) (hcl : classesOKB g = true)
+    {store : List (String × List (String × String))} (w : Nat) (hw : w < g.workers.length)
+    (steps : List (Outcome × Nat)) (s : State) (h : GInvN g ncls store s) (hd : OthersDone g w s)
+    (hfuel : ∀ x ∈ steps, Term.bound g ≤ x.2) (hlen : 24 * resultBound g + 13 * g.workers.length + 1 ≤ steps.length) :
+    isOver ((runW g w s steps).wd w).pc = true := by
+  cases hov : isOver ((runW g w s steps).wd w).pc with
+  | true => rfl
+  | false =>
+    exfalso
+    obtain ⟨y, _, _, c⟩ := lastWorker_run st hnr w hw steps s h hd hfuel
+    have c' := c hov
+    have h1 := total_le_resultBoundN st.wf hcl y.reachR y.noBump
+    have h2 := qsum_le (g := g) y.wait
+    unfold cntN at c'
+    omega
+
 end I2N.Trav.GlobalN
